@@ -1,4 +1,5 @@
 import Slu.Model.Struct
+import SluProofs.Lemmas.SymbPack
 import Mathlib.Tactic.Ring
 import Mathlib.Tactic.Linarith
 import Mathlib.Data.List.Nodup
@@ -209,3 +210,88 @@ example : wfb exF = true := by decide +kernel
 example : wfSC exF = none := by decide +kernel
 
 end Slu.Struct
+
+/-! ### The model: the set-level symbolic factorization predicts a well-formed structure
+
+`Slu.Symb.symbNaive` (lean/Slu/Model/Symb.lean) predicts the whole structure `[sdcz]gstrf` returns and is
+compared with it exactly on every case of family `symb`.  Proofs: Lemmas/Symb.lean (invariant of the
+column loop) and Lemmas/SymbPack.lean (packing into SCformat / NCformat arrays). -/
+namespace Slu.Symb
+open Slu Slu.Struct
+
+/-- **C03 (model, partition).**  For EVERY input — any column lists, any `relax_end`, any `maxsuper` —
+the predicted supernodes partition the columns `0..n-1` into consecutive non-empty ranges and `supno`
+is the matching map (the clauses `first`, `last`, `nonempty`, `col_to_sup` of `WF`). -/
+theorem symbNaive_partition (m n maxsuper : Nat) (cols : Nat → List Nat) (relaxEnd : Nat → Option Nat) (hn : n ≠ 0) :
+    let F := toFac m (symbNaive n maxsuper cols relaxEnd)
+    F.L.xsup[0]! = 0 ∧ F.L.xsup[F.L.nsuper + 1]! = n ∧
+    (∀ s < F.L.nsuper + 1, F.L.xsup[s]! < F.L.xsup[s + 1]!) ∧
+    (∀ s < F.L.nsuper + 1, ∀ c < F.L.xsup[s + 1]! - F.L.xsup[s]!, F.L.supno[F.L.xsup[s]! + c]! = s) := by
+  intro F
+  have h := symbNaive_wfOut n maxsuper cols relaxEnd
+  have hpos := h.ns_pos (by rw [symbNaive_n]; exact hn)
+  have hns : (symbNaive n maxsuper cols relaxEnd).rows.length - 1 + 1 = (symbNaive n maxsuper cols relaxEnd).rows.length := by omega
+  simp only [F, toFac_xsup, toFac_supno, toFac_nsuper, List.getElem!_toArray, hns]
+  exact ⟨h.x0, h.xn, h.xlt, h.sup⟩
+
+/-- **C03 (model, leading entries).**  For EVERY input the row list of every predicted supernode, read
+back from the packed arrays, starts with the supernode's own columns in order. -/
+theorem symbNaive_leading (m n maxsuper : Nat) (cols : Nat → List Nat) (relaxEnd : Nat → Option Nat) (hn : n ≠ 0) :
+    let F := toFac m (symbNaive n maxsuper cols relaxEnd)
+    ∀ s < F.L.nsuper + 1, ∀ c < F.L.xsup[s + 1]! - F.L.xsup[s]!, (rowsOf F.L s)[c]! = F.L.xsup[s]! + c := by
+  intro F s hs c hc
+  have h := symbNaive_wfOut n maxsuper cols relaxEnd
+  have hpos := h.ns_pos (by rw [symbNaive_n]; exact hn)
+  have hs' : s < (symbNaive n maxsuper cols relaxEnd).rows.length := by
+    simp only [F, toFac_nsuper] at hs; omega
+  simp only [F, toFac_xsup, List.getElem!_toArray] at hc ⊢
+  rw [h.rowsOf_toFac m s hs']
+  exact h.lead s hs' c hc
+
+/-- **C03 (model, rows below and U rows).**  For EVERY input: the entries of a predicted row list after
+the leading ones are distinct rows strictly below the supernode, and every predicted U column holds
+distinct rows strictly above its column's supernode. -/
+theorem symbNaive_trailing_and_U (m n maxsuper : Nat) (cols : Nat → List Nat) (relaxEnd : Nat → Option Nat) (hn : n ≠ 0) :
+    let F := toFac m (symbNaive n maxsuper cols relaxEnd)
+    (∀ s < F.L.nsuper + 1, (∀ r ∈ (rowsOf F.L s).drop (F.L.xsup[s + 1]! - F.L.xsup[s]!), F.L.xsup[s + 1]! - 1 < r) ∧
+        ((rowsOf F.L s).drop (F.L.xsup[s + 1]! - F.L.xsup[s]!)).Nodup) ∧
+    (∀ j < n, (∀ r ∈ ucolRows F j, r < F.L.xsup[F.L.supno[j]!]!) ∧ (ucolRows F j).Nodup) := by
+  intro F
+  have h := symbNaive_wfOut n maxsuper cols relaxEnd
+  have hpos := h.ns_pos (by rw [symbNaive_n]; exact hn)
+  constructor
+  · intro s hs
+    have hs' : s < (symbNaive n maxsuper cols relaxEnd).rows.length := by
+      simp only [F, toFac_nsuper] at hs; omega
+    simp only [F, toFac_xsup, List.getElem!_toArray]
+    rw [h.rowsOf_toFac m s hs']
+    exact ⟨h.below s hs', h.rnodup s hs'⟩
+  · intro j hj
+    simp only [F, toFac_xsup, toFac_supno, List.getElem!_toArray]
+    rw [h.ucolRows_toFac m j hj]
+    exact ⟨h.uabove j hj, h.unodup j hj⟩
+
+/-- **C03 (model, complete).**  For every pattern with row indices `< m`, `n ≤ m`, every `relax_end`
+function and every `maxsuper`, the predicted structure passes the checker `wfb`; hence (`wfb_sound`) it
+satisfies every clause of the property. -/
+theorem symbNaive_wf (m n maxsuper : Nat) (cols : Nat → List Nat) (relaxEnd : Nat → Option Nat) (hnm : n ≤ m)
+    (hcols : ∀ j < n, ∀ r ∈ cols j, r < m) : wfb (toFac m (symbNaive n maxsuper cols relaxEnd)) = true :=
+  symbNaive_wfb m n maxsuper cols relaxEnd hnm hcols
+
+theorem symbNaive_WF (m n maxsuper : Nat) (cols : Nat → List Nat) (relaxEnd : Nat → Option Nat) (hn : n ≠ 0) (hnm : n ≤ m)
+    (hcols : ∀ j < n, ∀ r ∈ cols j, r < m) : WF (toFac m (symbNaive n maxsuper cols relaxEnd)) false :=
+  wfb_sound _ false (by rw [toFac_n, symbNaive_n]; exact hn) (symbNaive_wf m n maxsuper cols relaxEnd hnm hcols)
+
+/-! non-vacuity: a 3x3 pattern (columns {0,1,2}, {1,2}, {0,2}; `maxsuper = 2`, no relaxed supernode):
+columns 0,1 form a T2 supernode, column 2 does not join it (`2 - 0 < maxsuper` fails) and reaches the
+supernode through row 0, so its U part is the whole segment [0..1] -/
+def exCols : Nat → List Nat := fun j => if j = 0 then [0, 1, 2] else if j = 1 then [1, 2] else [0, 2]
+example : (symbNaive 3 2 exCols (fun _ => none)).xsup = [0, 2, 3] := by decide +kernel
+example : (symbNaive 3 2 exCols (fun _ => none)).rows = [[0, 1, 2], [2]] := by decide +kernel
+example : (symbNaive 3 2 exCols (fun _ => none)).ucols = [[], [], [0, 1]] := by decide +kernel
+example : ∀ j < 3, ∀ r ∈ exCols j, r < 3 := by decide
+/-- a relaxed supernode [0..1] (as `relax_end[0] = 1` asks) followed by an ordinary column -/
+example : (symbNaive 3 2 exCols (fun j => if j = 0 then some 1 else none)).rows = [[0, 1, 2], [2]] := by decide +kernel
+
+end Slu.Symb
+
